@@ -125,8 +125,18 @@ func (s *state) pubView(r int) []byte {
 	return h(acc...)
 }
 
+// value of a message. Like in the real protocols (e.g. CMP sign round 2), a p2p message of a round that
+// also has a broadcast is bound to the sender's broadcast of the same round, so it can only be verified
+// once that broadcast has been stored.
 func (s *state) value(kind string, from, to party.ID, r int, nonce []byte) []byte {
-	return h([]byte(kind), []byte(from), []byte(to), []byte{byte(r)}, nonce, s.pubView(r))
+	var own []byte
+	if kind == "m" && s.shape.B[r-2] {
+		own = s.bvals[r][from]
+		if own == nil {
+			return nil
+		}
+	}
+	return h([]byte(kind), []byte(from), []byte(to), []byte{byte(r)}, nonce, s.pubView(r), own)
 }
 
 func (p *plain) Number() round.Number { return round.Number(p.n) }
@@ -162,7 +172,9 @@ func (p *plain) check(kind string, msg round.Message) ([]byte, error) {
 	if kind == "b" {
 		to = ""
 	}
-	if !bytes.Equal(c.V, p.value(kind, msg.From, to, p.n, nonce)) {
+	if want := p.value(kind, msg.From, to, p.n, nonce); want == nil {
+		return nil, errors.New("toy: the sender's broadcast of this round is not stored yet")
+	} else if !bytes.Equal(c.V, want) {
 		return nil, errors.New("toy: value does not verify")
 	}
 	return nonce, nil
